@@ -289,7 +289,7 @@ def mIte (g u v : Int) : MM Int := fun m => mIteF (m.tbl.nvars + 2) g u v m
 /-! ### `apply` -/
 
 /-- `v is not None and v not in self` -/
-def optNotMem (m : MddMgr) : Option Int → Bool
+def mddOptNotMem (m : MddMgr) : Option Int → Bool
   | some v => !m.mem v
   | none => false
 
@@ -299,8 +299,8 @@ def mApply (op : String) (u : Int) (v w : Option Int) : MM Int := fun m =>
   | .error e => (.error e, m)
   | .ok _ =>
   if !m.mem u then (.error .value, m) else
-  if optNotMem m v then (.error .value, m) else
-  if optNotMem m w then (.error .value, m) else
+  if mddOptNotMem m v then (.error .value, m) else
+  if mddOptNotMem m w then (.error .value, m) else
   match findRow op Gen.mddApplyTable with
   | none => (.error .value, m)
   | some row =>
